@@ -301,6 +301,8 @@ pub fn judge_conn(sc: &Scenario, obs: &Obs, res: &RunResult, opts: &JudgeOpts) -
                             }
                         }
                         Finish::Writer { parts, .. } => {
+                            // the application's own bytes define the message, whatever the method
+                            let head = false;
                             let all: Vec<u8> = parts.concat();
                             let st = parse_stream(&all, &[head]);
                             match st.finals().first() {
